@@ -1,6 +1,10 @@
 package sx
 
 import (
+	"go/token"
+	"go/types"
+	"strconv"
+
 	"golang.org/x/tools/go/ssa"
 )
 
@@ -40,4 +44,82 @@ func init() {
 
 func init() {
 	register("github.com/cockroachdb/apd/v3.noescape", func(m *Machine, fr *frame, fn *ssa.Function, args []Value) Value { return args[0] })
+}
+
+// Pure stdlib functions without a usable Go body for the executor (float
+// formatting/parsing uses float arithmetic on bit patterns): executed natively
+// when every argument is concrete; a symbolic argument is unsupported.
+func init() {
+	concStr := func(m *Machine, v Value, what string) string {
+		s, ok := v.(Str)
+		if !ok {
+			m.unsupported("%s: non-string argument", what)
+		}
+		c, ok := s.Concrete()
+		if !ok {
+			m.unsupported("%s on a symbolic string", what)
+		}
+		return c
+	}
+	concInt := func(m *Machine, v Value, what string) int64 {
+		t, ok := v.(T)
+		if !ok || !t.IsConst() {
+			m.unsupported("%s with a symbolic integer argument", what)
+		}
+		return t.SignedVal()
+	}
+	concFloat := func(m *Machine, v Value, what string) float64 {
+		switch f := v.(type) {
+		case float64:
+			return f
+		case float32:
+			return float64(f)
+		}
+		m.unsupported("%s on a symbolic float", what)
+		return 0
+	}
+	register("strconv.FormatFloat", func(m *Machine, fr *frame, fn *ssa.Function, args []Value) Value {
+		f := concFloat(m, args[0], "strconv.FormatFloat")
+		return Str{S: strconv.FormatFloat(f, byte(concInt(m, args[1], "FormatFloat fmt")), int(concInt(m, args[2], "FormatFloat prec")), int(concInt(m, args[3], "FormatFloat bitSize")))}
+	})
+	register("strconv.AppendFloat", func(m *Machine, fr *frame, fn *ssa.Function, args []Value) Value {
+		f := concFloat(m, args[1], "strconv.AppendFloat")
+		txt := strconv.FormatFloat(f, byte(concInt(m, args[2], "AppendFloat fmt")), int(concInt(m, args[3], "AppendFloat prec")), int(concInt(m, args[4], "AppendFloat bitSize")))
+		dst := args[0].(Slice)
+		out := make([]Value, 0, len(dst.V)+len(txt))
+		out = append(out, dst.V...)
+		for i := 0; i < len(txt); i++ {
+			out = append(out, m.F.Const(8, uint64(txt[i])))
+		}
+		return Slice{V: out}
+	})
+	register("strconv.ParseFloat", func(m *Machine, fr *frame, fn *ssa.Function, args []Value) Value {
+		s := concStr(m, args[0], "strconv.ParseFloat")
+		bits := int(concInt(m, args[1], "ParseFloat bitSize"))
+		f, err := strconv.ParseFloat(s, bits)
+		if err != nil {
+			// build a *strconv.NumError through the interpreted constructors
+			var ctor string
+			if ne, ok := err.(*strconv.NumError); ok && ne.Err == strconv.ErrRange {
+				ctor = "rangeError"
+			} else {
+				ctor = "syntaxError"
+			}
+			if cf := m.W.lookupFunc("strconv", ctor); cf != nil {
+				e := m.callFunction(fr, token.NoPos, cf, []Value{Str{S: "ParseFloat"}, Str{S: s}})
+				et := types.Universe.Lookup("error").Type()
+				_ = et
+				return Tuple{f, Iface{T: cf.Signature.Results().At(0).Type(), V: e}}
+			}
+			m.unsupported("strconv.ParseFloat error construction")
+		}
+		return Tuple{f, Iface{}}
+	})
+	register("runtime/trace.StartRegion", func(m *Machine, fr *frame, fn *ssa.Function, args []Value) Value {
+		p := new(Value)
+		*p = m.zero(deref(fn.Signature.Results().At(0).Type()))
+		return Ptr(p)
+	})
+	register("(*runtime/trace.Region).End", nop)
+	register("runtime/trace.IsEnabled", func(m *Machine, fr *frame, fn *ssa.Function, args []Value) Value { return m.F.False })
 }
